@@ -17,7 +17,8 @@ RULE = ("INPUTMODE correspondence: all class/id pairs of message ids + all 256 i
 
 
 def attrs(m):
-    return {k: v for k, v in m.__dict__.items() if not k.startswith("_")}
+    # NaN-safe: compare canonical renderings
+    return {k: impl.show_val(v) for k, v in m.__dict__.items() if not k.startswith("_")}
 
 
 def run(ctx):
